@@ -335,6 +335,22 @@ fn run_object_lifecycle(cx: &mut CaseCx, case: &Value) {
       }
     }
   }
+  // the same sharing built from buffers with SPARE CAPACITY, shared directly (no clone in between): the value of
+  // a Vec is its contents, not its allocation
+  {
+    let mut m2 = Vec::with_capacity(m.len() + 100);
+    m2.extend_from_slice(&m);
+    let mut r2 = Vec::with_capacity(r.len() * 2 + 7);
+    r2.extend_from_slice(&r);
+    getrandom::verif::set_group(399);
+    match guard(|| Commune::new(t, m2, r2, None).share().map_err(|e| e.to_string())) {
+      Ok(Ok(s)) => shares.push(s),
+      other => {
+        cx.viol("C16/share-failed", format!("share() on a sharing built from buffers with spare capacity failed: {:?}", other.map(|r| r.map(|_| ()))), json!({"t": t}));
+        return;
+      }
+    }
+  }
   let late_clone = c.clone();
   drop(early_clone.clone()); // a clone of a clone, dropped
   getrandom::verif::set_group(400);
@@ -360,7 +376,7 @@ fn run_object_lifecycle(cx: &mut CaseCx, case: &Value) {
   for (i, p) in parsed.iter().enumerate() {
     cx.eval();
     if p.threshold != parsed[0].threshold || p.c != parsed[0].c || p.d != parsed[0].d || p.j != parsed[0].j {
-      cx.viol("C16/not-deterministic/object-lifecycle", format!("share number {} of one sharing object (303 in all: 300 from clones dropped at once, then an early clone, a late clone on another thread, the original) differs from the first in its deterministic fields", i + 1), json!({"t": t, "share_number": i + 1}));
+      cx.viol("C16/not-deterministic/object-lifecycle", format!("share number {} of one sharing object (304 in all: 300 from clones dropped at once, one from a sharing built from buffers with spare capacity, then an early clone, a late clone on another thread, the original) differs from the first in its deterministic fields", i + 1), json!({"t": t, "share_number": i + 1}));
       return;
     }
   }
@@ -630,6 +646,13 @@ pub fn spec() -> PropSpec {
         gen: |_| [1u64, 2, 3, 5].iter().map(|t| json!({"t": t})).collect(),
         run: run_object_lifecycle,
         min_counts: &[("lifecycle_recovered", 30)],
+      },
+      Check {
+        name: "process-histories",
+        rule: "13 fresh processes - 12 with a different first operation each, one in a noisy environment (~75 diagnostic environment variables such as RUST_LOG, ADSS_TRACE, STAR_DEBUG set) - produce, under the same entropy, the byte-identical adss share of a fixed sharing (everything in a share except its evaluation point is a function of (threshold, message, coins); the point is a function of the entropy)",
+        gen: |_| vec![json!({})],
+        run: |cx, _| crate::probe::process_order_check(cx, "C16", &|l: &str| l.starts_with("adss share") || l.starts_with("tag =") || l.starts_with("report")),
+        min_counts: &[("process_histories_agree", 12)],
       },
       Check {
         name: "cross-process",
